@@ -75,28 +75,62 @@ def main():
     raw = {}
     compile_errors = {}
 
-    def run_crate(crate, hs, jobs):
-        # group by timeout class so that one invocation has one --harness-timeout
-        groups = {}
-        for h in hs:
-            groups.setdefault((h.timeout, h.group), []).append(h)
-        for (to, grp), g in sorted(groups.items(), key=lambda kv: (kv[0][0], str(kv[0][1]))):
-            res, text, wall, cerr = core.run_kani(work, crate, [h.name for h in g], jobs, to,
-                                                  log_name=f'kani-{crate}-{to}-{grp}',
-                                                  mem_kb=info.get('mem_kb', 40 * 1024 * 1024),
-                                                  overall_timeout=info.get('overall_timeout'))
-            core.log(f'[{pid}] cargo kani -p {core.CRATES[crate]}: {len(g)} harnesses, wall {wall:.0f}s')
+    cbmc_args_of = {}
+
+    def run_group(crate, g, jobs, to, tsuffix, label):
+        res, text, wall, cerr = core.run_kani(work, crate, [h.name for h in g], jobs, to, log_name=f'kani-{crate}-{label}',
+                                              mem_kb=info.get('mem_kb', 40 * 1024 * 1024),
+                                              overall_timeout=info.get('overall_timeout'), tsuffix=tsuffix)
+        core.log(f'[{pid}] cargo kani -p {core.CRATES[crate]} ({label}): {len(g)} harnesses, wall {wall:.0f}s')
+        if cerr:
+            compile_errors[crate] = text[-3000:]
+        for h in g:
+            results[h.name] = res.get(h.name)
+
+    def run_special(crate, g, tsuffix, jobs):
+        # harnesses with per-loop unwind bounds: compile, resolve the loop ids on the goto binaries, then verify;
+        # harnesses that resolve to the same CBMC arguments share one invocation
+        resolved = core.resolve_unwindsets(work, crate, g, tsuffix=tsuffix)
+        by_args = {}
+        for h in g:
+            labs, why = resolved.get(h.name, (None, 'not resolved'))
+            if labs is None:
+                results[h.name] = dict(status='error', failed_checks=[], raw='unwindset resolution failed: ' + why)
+                continue
+            cbmc_args = ('--unwindset', ','.join(labs))
+            cbmc_args_of[h.name] = cbmc_args
+            h.bound += f'; per-loop bound --unwindset {",".join(labs)}'
+            by_args.setdefault(cbmc_args, []).append(h)
+        for i, (cbmc_args, hh) in enumerate(by_args.items()):
+            to = max(h.timeout for h in hh)
+            res, text, wall, cerr = core.run_kani(work, crate, [h.name for h in hh], min(jobs, len(hh)), to, log_name=f'kani-{crate}-special{i}',
+                                                  mem_kb=info.get('mem_kb', 40 * 1024 * 1024), tsuffix=tsuffix, cbmc_args=cbmc_args)
+            core.log(f'[{pid}] cargo kani -p {core.CRATES[crate]} ({len(hh)} harnesses, {" ".join(cbmc_args)}): wall {wall:.0f}s')
             if cerr:
                 compile_errors[crate] = text[-3000:]
-            for h in g:
+            for h in hh:
                 results[h.name] = res.get(h.name)
 
     threads = []
-    ncr = len(by_crate)
     for crate, hs in by_crate.items():
-        th = threading.Thread(target=run_crate, args=(crate, hs, max(1, args.jobs // ncr)))
-        th.start()
-        threads.append(th)
+        plain = [h for h in hs if not h.unwindset]
+        special = [h for h in hs if h.unwindset]
+        # explicit groups get their own invocation (and target dir) and run concurrently with the rest
+        groups = {}
+        for h in plain:
+            groups.setdefault(h.group, []).append(h)
+        ngroups = len(groups) + (1 if special else 0)
+        share = max(1, args.jobs // max(1, ngroups * len(by_crate)))
+        for grp, g in groups.items():
+            to = max(h.timeout for h in g)
+            tsuffix = '' if grp is None else f'-{grp}'
+            th = threading.Thread(target=run_group, args=(crate, g, min(share, len(g)) if grp is not None else max(share, args.jobs - share * (ngroups - 1) * len(by_crate)), to, tsuffix, grp or 'main'))
+            th.start()
+            threads.append(th)
+        if special:
+            th = threading.Thread(target=run_special, args=(crate, special, '-special', max(1, args.jobs // 2)))
+            th.start()
+            threads.append(th)
     for th in threads:
         th.join()
 
@@ -128,7 +162,7 @@ def main():
                 entry['verdict'] = 'inconclusive: unwinding bound too small'
                 inconclusive.append(entry)
             else:
-                vals = core.playback_values(work, h.crate, h.name, h.timeout)
+                vals = core.playback_values(work, h.crate, h.name, h.timeout, cbmc_args=cbmc_args_of.get(h.name, ()))
                 if not vals:
                     entry['verdict'] = 'inconclusive: solver reported a failure but no counterexample values could be extracted'
                     inconclusive.append(entry)
